@@ -75,6 +75,11 @@ def harnesses(tier):
                    nobody_ok='*', ignore_failed=['no-body'], unwind=12, unwindset=['d_string_append.0:230', 'd_string_append_c_array.0:230', 'd_string_append_printf.0:80', 'd_string_append_printf.2:40'], timeout=600, mem_gb=6, functional=True, replay=False,
                    bounds='link / image x destination present or absent x title x width/height attributes (hostile values) x figure/inline x stored asset or not',
                    desc='mmd_export_link_opendocument / mmd_export_image_opendocument: balanced XML for every link record shape; attribute values only through the escaper'))
+    hs.append(dict(name='c08_html_head', src='c08/htmlhead.c', defs=dict(DS_SINK_PTR=1), pool_off=True,
+                   units=[dict(src='repo:html.c', cflags=['-include', 'verif_uthash.h', '-include', 'vh_libc.h'], remove=['mmd_print_string_html']), 'common/ds_sink.c'],
+                   nobody_ok='*', ignore_failed=['no-body'], unwind=20, unwindset=['d_string_append.0:230', 'd_string_append_c_array.0:230', 'd_string_append_printf.0:120'], timeout=600, mem_gb=4, functional=True, replay=False,
+                   bounds='one metadata entry: key among language/title/css/author/htmlheader/xhtmlheader/quoteslanguage/other, value arbitrary (tracked by identity); all extension words and languages',
+                   desc='html.c mmd_start_complete_html (also the head of EPUB main.xhtml): metadata keys and values reach the head only through the escaper (htmlheader/xhtmlheader are raw by design)'))
     hs.append(dict(name='c08_epub_members', src='c08/epubmeta.c', defs=dict(DS_SINK_PTR=1), pool_off=True,
                    units=[dict(src='repo:epub.c', cflags=['-include', 'verif_uthash.h'], remove=['epub_export_nav']), 'common/ds_sink.c'],
                    nobody_ok='*', ignore_failed=['no-body'], unwind=120, timeout=600, mem_gb=4, functional=True, replay=False,
